@@ -22,7 +22,7 @@ RULE = ("(a) histories: a pool of values (arrays, lists, tuples, objects of ever
         "in which a result of one call is an argument of a later call, or a multi-valued receiver, or an augmented operator. "
         "Histories come from a Hypothesis RuleBasedStateMachine (sub-check 'machine': every table callable is a rule, oracle "
         "after every step), from a list-of-steps strategy, and from exhaustive single calls and ordered pairs.")
-RULE = RULE + probes.RULE_TEXT + (probes.AUG_TEXT if PROPERTY_ID in probes.AUG_PROPS else "") + probes.VARIANT_TEXT
+RULE = RULE + probes.RULE_TEXT + (probes.AUG_TEXT if PROPERTY_ID in probes.AUG_PROPS else "") + probes.VARIANT_TEXT + probes.OWN_TEXT
 ASSUMPTIONS = ["returning a view of an argument is not a mutation", "callables needing a display or a file (plot, animate, printline) are excluded; counted in evidence",
                "random constructors are excluded from the repeat-call clause only"]
 
@@ -540,7 +540,7 @@ def _geom(case):
 
 
 def check_case(case):
-    if case.get("kind") in ("hist", "aug", "variant"):
+    if case.get("kind") in ("hist", "aug", "variant", "own"):
         return probes.run(case, PROPERTY_ID)
     if case["kind"] == "geom":
         return _geom(case)
@@ -721,7 +721,7 @@ def _reflect(case):
 
 
 def classify(case):
-    if case.get("kind") in ("hist", "aug", "variant"):
+    if case.get("kind") in ("hist", "aug", "variant", "own"):
         return probes.classify(case)
     k = case["kind"]
     lab = {"kind:" + k: True}
